@@ -88,10 +88,8 @@ Fold(p) == [k \in 1..Len(p) |-> IF p[k] = "i" THEN "I" ELSE p[k]]
 
 \* how a name is written in a LIST/LSUB response
 Garble(n, D) ==
-  LET g1 == IF "NewlineEncodedAsAmpersand" \in D
-            THEN [k \in 1..Len(n) |-> IF n[k] = "n" THEN "&" ELSE n[k]] ELSE n
-  IN IF "LeadingDelimiterDropped" \in D /\ g1 # <<>> /\ g1[1] = SEP
-     THEN Tail(g1) ELSE g1
+  IF "NewlineEncodedAsAmpersand" \in D
+  THEN [k \in 1..Len(n) |-> IF n[k] = "n" THEN "&" ELSE n[k]] ELSE n
 
 \* interpretations of <reference, pattern> the RFC leaves to the server;
 \* the first one (plain concatenation) is what pymap does
@@ -105,23 +103,36 @@ Canons(ref, pat) ==
 ListDevs == {"StarSkipsNewline", "EndAnchorBeforeTrailingNewline",
              "NewlineEncodedAsAmpersand", "LeadingDelimiterDropped"}
 
-\* E: the names listed (mailboxes, or subscriptions); X: the names that
-\* exist as mailboxes; lsub: BOOLEAN
-ListVariant(E, X, lsub, canon, ctag, D) ==
-  LET M(n) == IF "LeadingDelimiterDropped" \in D /\ n # <<>> /\ n[1] = SEP
-              THEN MatchX(canon, Tail(n), D) ELSE MatchX(canon, n, D)
+R0(ok, tag, dev) == [ok |-> ok, tag |-> tag, dev |-> dev,
+                     fresh |-> {}, gone |-> {}, moved |-> {}, app |-> {}]
+
+\* E0: the names listed (mailboxes, or subscriptions); X0: the names that
+\* exist as mailboxes; lsub: BOOLEAN.  Result: the names that must / may be
+\* returned, those that must / must not carry \Noselect, and `exact`, the
+\* answer when everything optional is returned.
+ListVariant(E0, X0, lsub, canon, ctag, D) ==
+  LET lead == "LeadingDelimiterDropped" \in D
+      \* deviation: a leading delimiter is lost (the tree is keyed by the parts
+      \* of the name and the empty first part is not joined back)
+      Strip(n) == IF lead /\ n[1] = SEP THEN Tail(n) ELSE n
+      E    == {Strip(n) : n \in E0}
+      X    == {Strip(n) : n \in X0}
+      root == IF lead /\ (\E n \in E0 : n[1] = SEP) THEN {<<>>} ELSE {}
+      impl == (Implied(E) \cup root) \ E
+      M(n) == MatchX(canon, n, D)
       ex   == {n \in E : M(n)}
-      imp  == {n \in Implied(E) : M(n)}
+      imp  == {n \in impl : M(n)}
       pend == canon[Len(canon)] = "%"
       \* INBOX: returned case-insensitively / always subscribed: optional
       inb  == IF MatchX(Fold(canon), Inbox, D) /\ Inbox \notin ex
               THEN {Inbox} ELSE {}
       G(S) == {Garble(n, D) : n \in S}
-  IN [ok |-> TRUE, dev |-> D, tag |-> ctag, one |-> FALSE,
-      must  |-> G(ex \cup (IF pend THEN imp ELSE {})),
-      may   |-> G(imp \cup inb),
+      must == G(ex \cup (IF pend THEN imp ELSE {}))
+      may  == G(imp \cup inb)
+  IN R0(TRUE, ctag, D) @@
+     [one |-> FALSE, must |-> must, may |-> may, exact |-> must \cup may,
       sel   |-> G(IF lsub THEN E \cap X ELSE E),
-      nosel |-> G(Implied(E) \ (IF lsub THEN {} ELSE X))]
+      nosel |-> G(impl \ (IF lsub THEN {Inbox} ELSE X))]
 
 HasTok(S, tok) == \E n \in S : tok \in Range(n)
 
@@ -139,7 +150,8 @@ ListVariants(m, s, lsub, ref, pat) ==
             THEN {"LsubOmitsMissingSubscribed"} ELSE {}
   IN IF pat = <<>>
      THEN \* the root query: one \Noselect entry naming (a prefix of) the reference
-          {[ok |-> TRUE, dev |-> {}, tag |-> {}, one |-> TRUE, must |-> {},
+          {R0(TRUE, {}, {}) @@
+           [one |-> TRUE, must |-> {}, exact |-> {<<>>},
             may |-> {SubSeq(ref, 1, k) : k \in 0..Len(ref)},
             sel |-> {}, nosel |-> {SubSeq(ref, 1, k) : k \in 0..Len(ref)}]}
      ELSE {ListVariant(IF "LsubOmitsMissingSubscribed" \in D THEN EI \cap X ELSE EI,
@@ -159,8 +171,6 @@ Probe(m, s) == [list |-> ListAsIs(m, s, FALSE, <<>>, <<"*">>),
 ---------------------------------------------------------------------------
 (* Outcomes of the commands in the current state: sets of [r, m, s].       *)
 
-R0(ok, tag, dev) == [ok |-> ok, tag |-> tag, dev |-> dev,
-                     fresh |-> {}, gone |-> {}, moved |-> {}, app |-> {}]
 Out(r, m, s) == [r |-> r, m |-> m, s |-> s]
 Same(r)      == Out(r, mbx, sub)
 No(tag)      == Same(R0(FALSE, tag, {}))
@@ -326,7 +336,7 @@ Subscribe(a)   == Apply(<<"subscribe", a>>, SubscribeAsIs(a))
 Unsubscribe(a) == Apply(<<"unsubscribe", a>>, UnsubscribeAsIs(a))
 Status(a)      == Apply(<<"status", a>>, QueryAsIs(a))
 Select(a)      == Apply(<<"select", a>>, QueryAsIs(a))
-Append(a)      == AppendOutcomes(a) # {} /\ Apply(<<"append", a>>, AppendAsIs(a))
+AppendMsg(a)   == AppendOutcomes(a) # {} /\ Apply(<<"append", a>>, AppendAsIs(a))
 List(ref, pat) == Apply(<<"list", ref, pat>>, ListOutAsIs(FALSE, ref, pat))
 Lsub(ref, pat) == Apply(<<"lsub", ref, pat>>, ListOutAsIs(TRUE, ref, pat))
 
@@ -336,7 +346,7 @@ NextAsIs ==
   \/ \E a \in NameArgs : Delete(a) \/ Status(a) \/ Select(a)
   \/ \E p \in RenameArgs : Rename(p[1], p[2])
   \/ \E a \in SubArgs : Subscribe(a) \/ Unsubscribe(a)
-  \/ \E a \in AppendArgs : Append(a)
+  \/ \E a \in AppendArgs : AppendMsg(a)
   \/ \E q \in ListQ : List(q[1], q[2])
   \/ \E q \in LsubQ : Lsub(q[1], q[2])
 
@@ -423,52 +433,71 @@ WellFormed(n) == /\ n[1] # SEP /\ n[Len(n)] # SEP
 Pairs(S) == {<<x, y>> : x \in S, y \in S}
 None == {<<{}, {}>>}
 
-a == <<"a">>    b == <<"b">>    ab == <<"a", "/", "b">>    bb == <<"b", "/", "b">>
-aS == <<"a", "/">>
-Ia == <<"I", "/", "a">>   ba == <<"b", "/", "a">>   i == <<"i">>
-abb == <<"a", "/", "b", "/", "b">>
-an == <<"a", "n">>   anb == <<"a", "n", "b">>   Sa == <<"/", "a">>
-st == <<"*">>   pc == <<"%">>   e == <<>>
+n_a == <<"a">>    n_b == <<"b">>    n_ab == <<"a", "/", "b">>    n_bb == <<"b", "/", "b">>
+n_aS == <<"a", "/">>
+n_Ia == <<"I", "/", "a">>   n_ba == <<"b", "/", "a">>   n_i == <<"i">>
+n_abb == <<"a", "/", "b", "/", "b">>
+n_an == <<"a", "n">>   n_anb == <<"a", "n", "b">>   n_Sa == <<"/", "a">>
+n_st == <<"*">>   n_pc == <<"%">>   n_e == <<>>
 
 \* hierarchy: parent / inferior / rename with inferiors / implied parents /
 \* trailing delimiter
-HierNames   == {a, b, ab, bb}
-HierCreate  == {a, ab, b, aS, Inbox}
-HierName    == {a, ab, b, bb, Inbox}
-HierRename  == {<<a, b>>, <<b, a>>, <<ab, b>>, <<a, ab>>, <<ab, a>>, <<b, Inbox>>, <<a, a>>, <<Inbox, b>>}
-HierSub     == {a, ab}
-HierAppend  == {a, ab}
-HierListQ   == {<<e, pc>>, <<aS, pc>>, <<e, <<"a", "/", "%">>>>, <<a, st>>, <<e, e>>, <<e, <<"%", "/", "%">>>>}
-HierLsubQ   == {<<e, pc>>, <<e, <<"a", "/", "*">>>>}
+HierNames   == {n_a, n_b, n_ab, n_bb}
+HierCreate  == {n_a, n_ab, n_b, n_aS, Inbox}
+HierName    == {n_a, n_ab, n_b, n_bb, Inbox}
+HierRename  == {<<n_a, n_b>>, <<n_b, n_a>>, <<n_ab, n_b>>, <<n_a, n_ab>>, <<n_ab, n_a>>, <<n_b, Inbox>>, <<n_a, n_a>>, <<Inbox, n_b>>}
+HierSub     == {n_a, n_ab}
+HierAppend  == {n_a, n_ab}
+HierListQ   == {<<n_e, n_pc>>, <<n_aS, n_pc>>, <<n_e, <<"a", "/", "%">>>>, <<n_a, n_st>>, <<n_e, n_e>>, <<n_e, <<"%", "/", "%">>>>}
+HierLsubQ   == {<<n_e, n_pc>>, <<n_e, <<"a", "/", "*">>>>}
+
+\* the same, smaller (quick tier)
+HierQCreate == {n_a, n_ab, n_b}
+HierQName   == {n_a, n_ab, n_b, n_bb}
+HierQRename == {<<n_a, n_b>>, <<n_b, n_a>>, <<n_ab, n_b>>, <<n_a, n_ab>>, <<n_b, Inbox>>, <<n_a, n_a>>}
+HierQSub    == {n_ab, n_b}
+HierQAppend == {n_a, n_ab}
+
+\* trailing delimiter in CREATE
+TrailCreate == {n_a, n_aS, n_ab}
+TrailName   == {n_a}
+TrailListQ  == {<<n_e, n_pc>>, <<n_e, <<"a", "/", "%">>>>}
 
 \* INBOX: case variants, INBOX as a hierarchy parent, renaming INBOX
-InbCreate   == {Inbox, i, Ia, a, ba}
-InbName     == {Inbox, i, Ia, a, ba}
-InbRename   == {<<Inbox, a>>, <<i, b>>, <<a, Inbox>>, <<a, i>>, <<Ia, a>>, <<b, a>>, <<a, Ia>>, <<Inbox, Inbox>>}
-InbSub      == {Inbox, i, Ia}
-InbAppend   == {Inbox, i, Ia, a}
-InbListQ    == {<<e, Inbox>>, <<e, i>>, <<e, pc>>, <<Inbox, <<"/", "%">>>>, <<e, <<"I", "/", "*">>>>, <<e, <<"I", "*">>>>}
-InbLsubQ    == {<<e, pc>>, <<e, i>>}
+InbCreate   == {Inbox, n_i, n_Ia, n_a, n_ba}
+InbName     == {Inbox, n_i, n_Ia, n_a, n_ba}
+InbRename   == {<<Inbox, n_a>>, <<n_i, n_b>>, <<n_a, Inbox>>, <<n_a, n_i>>, <<n_Ia, n_a>>, <<n_b, n_a>>, <<n_a, n_Ia>>, <<Inbox, Inbox>>}
+InbSub      == {Inbox, n_i, n_Ia}
+InbAppend   == {Inbox, n_i, n_Ia, n_a}
+InbListQ    == {<<n_e, Inbox>>, <<n_e, n_i>>, <<n_e, n_pc>>, <<Inbox, <<"/", "%">>>>, <<n_e, <<"I", "/", "*">>>>, <<n_e, <<"I", "*">>>>}
+InbLsubQ    == {<<n_e, n_pc>>, <<n_e, n_i>>}
+
+\* the same, smaller (quick tier)
+InbQCreate  == {n_i, n_Ia, n_a}
+InbQName    == {Inbox, n_i, n_Ia, n_a}
+InbQRename  == {<<Inbox, n_a>>, <<n_i, n_b>>, <<n_a, Inbox>>, <<n_b, n_i>>}
+InbQSub     == {n_i}
+InbQAppend  == {n_i}
 
 \* bigger universe for simulation
-SimNames    == {a, b, ab, bb, ba, abb, Ia, an, anb, <<"a", "*">>, <<"a", "%">>, <<"a", "b">>}
-SimCreate   == SimNames \cup {Inbox, i, aS, <<"b", "/">>}
-SimName     == SimNames \cup {Inbox, i}
-SimRename   == Pairs(SimNames \cup {Inbox}) \cup {<<i, a>>, <<a, i>>}
-SimListQ    == {<<e, pc>>, <<e, st>>, <<aS, pc>>, <<a, st>>, <<e, <<"a", "*">>>>, <<e, <<"a", "%">>>>,
-                <<e, <<"%", "/", "%">>>>, <<e, <<"*", "b">>>>, <<e, i>>, <<e, e>>, <<aS, e>>,
-                <<e, <<"a", "/", "*">>>>, <<e, <<"%", "b">>>>, <<Inbox, <<"/", "%">>>>, <<e, a>>, <<e, an>>}
+SimNames    == {n_a, n_b, n_ab, n_bb, n_ba, n_abb, n_Ia, n_an, n_anb, <<"a", "*">>, <<"a", "%">>, <<"a", "b">>}
+SimCreate   == SimNames \cup {Inbox, n_i, n_aS, <<"b", "/">>}
+SimName     == SimNames \cup {Inbox, n_i}
+SimRename   == Pairs(SimNames \cup {Inbox}) \cup {<<n_i, n_a>>, <<n_a, n_i>>}
+SimListQ    == {<<n_e, n_pc>>, <<n_e, n_st>>, <<n_aS, n_pc>>, <<n_a, n_st>>, <<n_e, <<"a", "*">>>>, <<n_e, <<"a", "%">>>>,
+                <<n_e, <<"%", "/", "%">>>>, <<n_e, <<"*", "b">>>>, <<n_e, n_i>>, <<n_e, n_e>>, <<n_aS, n_e>>,
+                <<n_e, <<"a", "/", "*">>>>, <<n_e, <<"%", "b">>>>, <<Inbox, <<"/", "%">>>>, <<n_e, n_a>>, <<n_e, n_an>>}
 
 \* the matcher: every well-formed name over NameAlpha exists at once (and is
 \* subscribed); every pattern over PatAlpha; plus each name alone and a few
 \* pairs (implied parents)
 MNames(A, L)   == {n \in Seqs(A, L) : WellFormed(n)}
-MQueries(A, L) == {<<e, p>> : p \in Seqs(A, L)}
-                  \cup {<<r, p>> : r \in {a, aS}, p \in Seqs(A, L - 1)}
+MQueries(A, L) == {<<n_e, p>> : p \in Seqs(A, L)}
+                  \cup {<<r, p>> : r \in {n_a, n_aS}, p \in Seqs(A, L - 1)}
 MInit(S)  == {<<S, S>>} \cup {<<{n}, {n}>> : n \in {x \in S : SEP \in Range(x)}}
 
 MatchQuickNames == MNames({"a", "b", "/", "*", "n"}, 3)
-MatchQuickQ     == MQueries({"a", "b", "/", "*", "%"}, 3) \cup {<<e, <<"a", "n">>>>, <<e, <<"a", "n", "*">>>>, <<e, <<"*", "n">>>>, <<e, <<"%", "n", "%">>>>}
+MatchQuickQ     == MQueries({"a", "b", "/", "*", "%"}, 3) \cup {<<n_e, <<"a", "n">>>>, <<n_e, <<"a", "n", "*">>>>, <<n_e, <<"*", "n">>>>, <<n_e, <<"%", "n", "%">>>>}
 MatchQuickInit  == MInit(MatchQuickNames)
 
 MatchFullNames  == MNames({"a", "b", "/", "*", "%", "n"}, 3) \cup MNames({"a", "/"}, 5)
@@ -476,6 +505,6 @@ MatchFullQ      == MQueries({"a", "b", "/", "*", "%", "n"}, 3) \cup MQueries({"a
 MatchFullInit   == MInit(MatchFullNames)
 
 \* a name with a leading delimiter
-LeadInit  == {<<{Sa}, {Sa}>>, <<{Sa, a}, {}>>, <<{<<"/", "a", "/", "b">>}, {}>>}
-LeadQ     == {<<e, st>>, <<e, pc>>, <<e, Sa>>, <<e, a>>, <<e, <<"/", "%">>>>, <<e, <<"/", "*">>>>, <<e, <<"%", "/", "%">>>>}
+LeadInit  == {<<{n_Sa}, {n_Sa}>>, <<{n_Sa, n_a}, {}>>, <<{<<"/", "a", "/", "b">>}, {}>>}
+LeadQ     == {<<n_e, n_st>>, <<n_e, n_pc>>, <<n_e, n_Sa>>, <<n_e, n_a>>, <<n_e, <<"/", "%">>>>, <<n_e, <<"/", "*">>>>, <<n_e, <<"%", "/", "%">>>>}
 =============================================================================
